@@ -199,6 +199,88 @@ class SetAeTask(Task):
             I.ob(f"{P}/returned-title-is-not-entirely-spaces", z3.Not(val.all_in(lambda c: c == 32)))
 
 
+class SetUidTask(Task):
+    """utils.set_uid on its real body, for every combination of (allow_empty, allow_none, validate) and both settings of
+    ENFORCE_UID_CONFORMANCE: what it returns is None only where None is allowed, otherwise a UID with the characters it was given,
+    never empty where empty is not allowed and - with validation - within 1..64 characters (digits and dots when conformance
+    is enforced). Every UID setter of the primitives, PDUs and items stores what this function returns (used by contract in
+    C01/C10/C11/C17/...)."""
+    name = "set_uid"
+    functions = [f"{UT}:set_uid", f"{VAL}:validate_ui"]
+    shard = True
+
+    def config(self, repo):
+        c = str_config()
+        c.module_consts[("pynetdicom._config", "VALIDATORS")] = lambda I: {"AE": I.resolve_global(I.repo.module(VAL), "validate_ae"),
+                                                                         "UI": I.resolve_global(I.repo.module(VAL), "validate_ui")}
+        c.module_consts[("pynetdicom._config", "ENFORCE_UID_CONFORMANCE")] = lambda I: I.ghost["enforce"]
+
+        def uid(I, a, k):
+            v = a[0]
+            if isinstance(v, LongStr):
+                v.is_uid = True
+                return v
+            if isinstance(v, CharStr):
+                return UidStr(v.chars)
+            raise Unsupported("UID() of a non-string")
+        c.ext_models["pydicom.uid.UID"] = uid
+
+        def decode_bytes(I, a, k):
+            # contract of utils.decode_bytes (C02): the decoded characters, or ValueError
+            if I.choose(2, "decode_bytes") == 1:
+                raise PyRaise(ExcVal("ValueError", ("Unable to decode",)))
+            return I.ghost["decoded"]
+        c.summaries[f"{UT}:decode_bytes"] = decode_bytes
+        return c
+
+    def body(self, I):
+        P = f"C12/{UT}:set_uid"
+        g = I.ghost
+        g["enforce"] = I.choose(2, "ENFORCE_UID_CONFORMANCE") == 1
+        allow_empty = I.choose(2, "allow_empty") == 1
+        allow_none = I.choose(2, "allow_none") == 1
+        validate = I.choose(2, "validate") == 1
+        shape = I.choose(4, "argument")
+        n = None
+        if shape == 1:
+            v = None
+        elif shape == 2:
+            v = 5
+        else:
+            k = I.choose(67, "length of value")
+            if k == 66:
+                txt = LongStr(I, "value", 65)
+            else:
+                txt, n = CharStr.fresh(I, "value", k), k
+            if shape == 3:
+                g["decoded"] = txt
+                v = b"\x00"      # any bytes object: only decode_bytes (by contract) looks at the content
+            else:
+                v = txt
+        kind, val = I.run_function(I.repo.func(f"{UT}:set_uid"), [v, "SOP Class UID", allow_empty, allow_none, validate])
+        mode = f"[allow_empty={allow_empty},allow_none={allow_none},validate={validate}]"
+        if kind == "raise":
+            I.ob(f"{P}/raises-only-ValueError-or-TypeError", val.cls_name in ("ValueError", "TypeError"), detail=repr(val))
+            if shape == 0 and n is not None and 1 <= n <= 64 and not g["enforce"]:
+                # default configuration (with ENFORCE_UID_CONFORMANCE the verdict is pydicom's UID.is_valid, a library predicate)
+                I.ob(f"{P}/a-UID-of-1-to-64-digits-and-dots-is-never-refused[default-configuration]", z3.Not(txt.all_in(legal_ui_char)), detail=mode)
+            return
+        if val is None:
+            I.ob(f"{P}/None-is-returned-only-for-None-where-None-is-allowed", v is None and allow_none, detail=mode)
+            return
+        I.ob(f"{P}/None-is-returned-only-for-None-where-None-is-allowed", v is not None or not allow_none, detail=mode)
+        I.ob(f"{P}/returns-a-UID", getattr(val, "is_uid", False) is True, detail=f"{type(val).__name__} {mode}")
+        I.ob(f"{P}/returns-the-characters-it-was-given", shape in (0, 3) and ((val is txt) or (isinstance(val, CharStr) and isinstance(txt, CharStr)
+             and len(val.chars) == len(txt.chars) and all(a is b or a.eq(b) for a, b in zip(val.chars, txt.chars)))),
+             detail=f"{mode} {type(val).__name__} {type(txt).__name__} {shape}")
+        if not allow_empty:
+            I.ob(f"{P}/never-returns-an-empty-UID-where-empty-is-not-allowed", isinstance(val, LongStr) or len(val.chars) > 0, detail=mode)
+        if validate:
+            I.ob(f"{P}/a-validated-UID-has-at-most-64-characters", isinstance(val, CharStr) and len(val.chars) <= 64, detail=mode)
+            if g["enforce"] and isinstance(val, CharStr):
+                I.ob(f"{P}/a-validated-UID-is-digits-and-dots[ENFORCE_UID_CONFORMANCE]", val.all_in(legal_ui_char), detail=mode)
+
+
 class TitleSitesTask(FiniteTask):
     """every setter of a called / calling / local AE title on the path to the wire validates with
     set_ae(value, name, False, False) - the mode SetAeTask covers"""
@@ -380,7 +462,7 @@ class IdsLemma(Task):
 
 
 def tasks(tier):
-    return [TablesTask(), ValidateAeTask(), ValidateUiTask(), SetAeTask(), TitleSitesTask(), AssociateIdsTask(), IdsLemma(),
+    return [TablesTask(), ValidateAeTask(), ValidateUiTask(), SetAeTask(), SetUidTask(), TitleSitesTask(), AssociateIdsTask(), IdsLemma(),
             UserInfoInvariantTask(), UserInfoSitesTask()] + _send_tasks()
 
 
